@@ -196,6 +196,8 @@ func c03Facts(fs *Facts, s *c02Src) {
 	fs.Tri("flushesAtCountBound", t, w)
 	t, w = c03LockedClosesWriterFirst(s)
 	fs.Tri("lockedClosesWriterFirst", t, w)
+	t, w = c03CliAbortsWhenStopFails(s)
+	fs.Tri("cliAbortsWhenStopFails", t, w)
 	t, w = c02ZeroTailIsEOF(s)
 	fs.Tri("zeroTailIsEOF", t, w)
 	c25ReaderAssumptions(fs, s)
@@ -223,6 +225,41 @@ func c03LockedClosesWriterFirst(s *c02Src) (Tri, string) {
 		return Yes, c02Where(s.ch, ifs)
 	}
 	return Unknown, c02Where(s.ch, ifs)
+}
+
+// hydraidectl compact goes on only when the instance is known not to run: a StopInstance error other than
+// ErrServiceNotRunning / ErrServiceNotFound ends the command (the model's offline compaction needs no writer open).
+func c03CliAbortsWhenStopFails(s *c02Src) (Tri, string) {
+	if s.cli == nil {
+		return Unknown, ""
+	}
+	var stop *ast.IfStmt
+	ast.Inspect(s.cli.AST, func(n ast.Node) bool {
+		if ifs, ok := n.(*ast.IfStmt); ok && ifs.Init != nil && strings.Contains(s.cli.Str(ifs.Init), "runner.StopInstance(ctx, compactInstanceName)") {
+			stop = ifs
+		}
+		return true
+	})
+	if stop == nil {
+		return Unknown, c02CliCompt
+	}
+	where := c02Where(s.cli, stop)
+	body := s.cli.Str(stop.Body)
+	if !strings.Contains(body, "os.Exit(") && !strings.Contains(body, "return") {
+		return No, where // every error is taken for "was not running"
+	}
+	for _, st := range stop.Body.List {
+		g, ok := st.(*ast.IfStmt)
+		if !ok {
+			continue
+		}
+		c := s.cli.Str(g.Cond)
+		if strings.Contains(c, "!errors.Is(err, instancerunner.ErrServiceNotRunning)") && !strings.Contains(c, "||") &&
+			strings.HasSuffix(s.cli.Str(g.Body), "os.Exit(1) }") {
+			return Yes, where
+		}
+	}
+	return Unknown, where
 }
 
 func init() {
